@@ -13,13 +13,14 @@ META = dict(
     shards={"quick": 10, "thorough": 16},
     watchdog_s={"quick": 1500, "thorough": 5400},
     evaluations_counter="cases",
-    min={"histories": 200, "freeze_steps": 200, "second_freeze_steps": 80, "deepcopy_steps": 60, "move_steps": 60,
+    min={"histories": 200, "freeze_steps": 200, "second_freeze_steps": 80, "deepcopy_steps": 60, "move_steps": 60, "other_copy_steps": 100,
          "compaction_checks": 200, "transitions_checked": 1000},
     anchors=["quantize.py:freeze", "nn/qmodule.py:QModuleMixin.freeze", "nn/qmodule.py:QModuleMixin.qweight",
              "quantize.py:quantize"],
     rule="case = one lifecycle history on a runnable model (7 architectures x 6 weight qtypes x activations "
          "{None,qint8,qfloat8} x dtype): random interleaving of forward / calibrate (with or without autograd) / freeze / "
-         "freeze again / to(cpu) / cpu() / deepcopy; after every step the recorder stores bit fingerprints of the "
+         "freeze again / to(cpu) / cpu() / to(torch.device) / to(non_blocking) / deepcopy / copy.copy / pickle round trip / "
+         "torch.save+torch.load of the module / _apply(clone) / reloading its own state_dict; after every step the recorder stores bit fingerprints of the "
          "outputs on a fixed probe set, of every bias/scale/other parameter and of the inner tensors of every quantized "
          "weight; the checker allows changes only across calibrate steps. Non-trivial when the history has a forward "
          "before and after freeze and >=1 of {second freeze, move, deepcopy}; distinct by (architecture, qtypes, dtype, "
@@ -31,7 +32,8 @@ META = dict(
 DT = [torch.float32, torch.float16, torch.bfloat16]
 WQ = ["qint8", "qfloat8", "qfloat8_e4m3fn", "qfloat8_e5m2", "qint4", "qint2"]
 AQ = [None, None, "qint8", "qfloat8"]
-STEPS = ["forward", "calibrate", "calibrate_grad", "freeze", "freeze", "to_cpu", "cpu", "deepcopy"]
+STEPS = ["forward", "calibrate", "calibrate_grad", "freeze", "freeze", "to_cpu", "cpu", "deepcopy", "to_device_obj",
+         "to_non_blocking", "copy", "pickle", "torch_save_module", "apply_clone", "reload_own_state"]
 
 
 def compaction(ctx, model, wq, sig0, desc):
@@ -88,7 +90,8 @@ def run(ctx):
         aq = AQ[int(rng.integers(len(AQ)))]
         kind = lifecycle.MODEL_KINDS[int(rng.integers(len(lifecycle.MODEL_KINDS)))]
         L = int(rng.integers(3, 9))
-        steps = [STEPS[int(rng.integers(len(STEPS)))] for _ in range(L)]
+        steps = [STEPS[int(rng.integers(8))] if rng.random() < 0.65 else STEPS[8 + int(rng.integers(len(STEPS) - 8))]
+                 for _ in range(L)]
         if "freeze" not in steps:
             steps[int(rng.integers(L))] = "freeze"
         if aq is None:
@@ -96,6 +99,10 @@ def run(ctx):
         if lifecycle.crash_hazard(kind, wd, wq, aq):
             ctx.count("steered_around_known_crash_class")
             wq = "qfloat8"
+        if "float8" in wq:
+            # platform: pickle.loads(pickle.dumps(t)) of a *plain* float8 tensor raises in this torch build (legacy
+            # storage loader); torch.save/torch.load of the module is the float8-capable route
+            steps = [s if s != "pickle" else "torch_save_module" for s in steps]
         desc = dict(history=i, model=kind, dtype=str(wd), weights=wq, activations=aq, steps=steps)
         if not ctx.case(desc):
             continue
@@ -146,6 +153,34 @@ def run(ctx):
                 elif step == "deepcopy":
                     model = copy.deepcopy(model)
                     ctx.count("deepcopy_steps")
+                elif step == "to_device_obj":
+                    model = model.to(torch.device("cpu"))
+                    ctx.count("move_steps")
+                elif step == "to_non_blocking":
+                    model = model.to("cpu", non_blocking=True)
+                    ctx.count("move_steps")
+                elif step == "copy":
+                    model = copy.copy(model)
+                    ctx.count("other_copy_steps")
+                elif step == "pickle":
+                    import pickle
+
+                    model = pickle.loads(pickle.dumps(model))
+                    ctx.count("other_copy_steps")
+                elif step == "torch_save_module":
+                    import io
+
+                    buf = io.BytesIO()
+                    torch.save(model, buf)
+                    buf.seek(0)
+                    model = torch.load(buf, weights_only=False)
+                    ctx.count("other_copy_steps")
+                elif step == "apply_clone":
+                    model = model._apply(lambda t: t.clone())
+                    ctx.count("other_copy_steps")
+                elif step == "reload_own_state":
+                    model.load_state_dict(copy.deepcopy(model.state_dict()))
+                    ctx.count("other_copy_steps")
                 cur = lifecycle.record(model, probes)
             except Exception as e:
                 import re
@@ -183,7 +218,7 @@ def run(ctx):
             prev = cur
             hist.append(step)
         fi = steps.index("freeze")
-        if "forward" in steps[:fi] + ["forward"] and any(s in steps[fi + 1:] for s in ("freeze", "to_cpu", "cpu", "deepcopy")):
+        if "forward" in steps[:fi] + ["forward"] and any(s in steps[fi + 1:] for s in STEPS[4:]):
             ctx.nontrivial(kind, wq, aq, str(wd), tuple(steps))
         ctx.see("models", kind)
         ctx.see("weights_x_act", f"{wq}/{aq}")
